@@ -33,25 +33,26 @@ const (
 )
 
 type scen struct {
-	Idx       int    `json:"idx"`
-	Prop      string `json:"prop"`
-	Kind      string `json:"kind"`
-	Reason    bool   `json:"reason"` // local close carries a reason (close frame is sent)
-	React     bool   `json:"react"`  // the reader reacts to a reported error with CloseDataConnection, as ship.ShipConnection does
-	Serial    bool   `json:"serial,omitempty"` // the reader handles a reported error under the lock its own writers hold while they write, as ship.ShipConnection does (sync.Once around CloseConnection: a graceful close writes its announce inside it, the close caused by ReportConnectionError waits for it)
-	Code      int    `json:"code"`   // peer close code
-	Writers   int    `json:"writers"`
-	Per       int    `json:"per"`
-	Incoming  int    `json:"incoming"`
-	At        int    `json:"at"` // the closing event is placed after this many write calls have started
-	K         int    `json:"k"`  // index of the faulty read / write
-	Late      int    `json:"late"`
-	Procs     int    `json:"procs"`
-	SutServer bool   `json:"sut_server"`
-	Yield     int    `json:"yield"`          // percentage of Gosched perturbation points taken
-	Hold      bool   `json:"hold,omitempty"` // witness only: hold the read pump between its closed-check and the delivery
-	Witness   string `json:"witness,omitempty"`
-	rseed     uint64
+	Idx        int    `json:"idx"`
+	Prop       string `json:"prop"`
+	Kind       string `json:"kind"`
+	Reason     bool   `json:"reason"`                // local close carries a reason (close frame is sent)
+	React      bool   `json:"react"`                 // the reader reacts to a reported error with CloseDataConnection, as ship.ShipConnection does
+	TimeoutErr bool   `json:"timeout_err,omitempty"` // an injected write fault is of the timeout kind (net.Error, Timeout() true)
+	Serial     bool   `json:"serial,omitempty"`      // the reader handles a reported error under the lock its own writers hold while they write, as ship.ShipConnection does (sync.Once around CloseConnection: a graceful close writes its announce inside it, the close caused by ReportConnectionError waits for it)
+	Code       int    `json:"code"`                  // peer close code
+	Writers    int    `json:"writers"`
+	Per        int    `json:"per"`
+	Incoming   int    `json:"incoming"`
+	At         int    `json:"at"` // the closing event is placed after this many write calls have started
+	K          int    `json:"k"`  // index of the faulty read / write
+	Late       int    `json:"late"`
+	Procs      int    `json:"procs"`
+	SutServer  bool   `json:"sut_server"`
+	Yield      int    `json:"yield"`          // percentage of Gosched perturbation points taken
+	Hold       bool   `json:"hold,omitempty"` // witness only: hold the read pump between its closed-check and the delivery
+	Witness    string `json:"witness,omitempty"`
+	rseed      uint64
 }
 
 type wcall struct {
@@ -221,7 +222,7 @@ func runScen(sc scen) (res result) {
 		res.Dirty = true
 		return
 	}
-	fc := &faultConn{Conn: c1, gate: make(chan struct{}), slowEntered: make(chan struct{})}
+	fc := &faultConn{Conn: c1, gate: make(chan struct{}), slowEntered: make(chan struct{}), timeoutKind: sc.TimeoutErr}
 	switch sc.Kind {
 	case kReadFault:
 		fc.failReadAt = int64(sc.K)
